@@ -686,3 +686,198 @@ func ruleIter7(c *Ctx) []*Ob {
 	}
 	return o.list
 }
+
+func init() {
+	register(&Rule{
+		ID: "ITER-8",
+		Doc: "The single-source fast path is chosen by the number of sources, not of live cursors: in iterator.optimize every return of something other than the receiver (an iteratorSingle, the " +
+			"lower level's iterator) lies behind the `numSources == 1` edge, and iterator.numSources is written exactly once, in startIterator, from len(cursors) before heap.Init and before " +
+			"any cursor can be exhausted. (optimize runs after the initial skip of a leading deletion; with {a,b} under {Del a} one live cursor is left, and a backward SeekTo on the " +
+			"single-segment iterator yields the deleted a - D24.)",
+		Props: []string{"C09", "C10"},
+		Floor: 1,
+		Run:   ruleIter8,
+	})
+}
+
+func ruleIter8(c *Ctx) []*Ob {
+	o := newObs(c, "ITER-8")
+	f := c.Fn("(*iterator).optimize")
+	fn := c.fname(f)
+	fNum := c.FieldOpt("iterator", "numSources")
+	recv := f.Params[0]
+	oneSource := func(from, to *ssa.BasicBlock, cond ssa.Value, onTrue bool) bool {
+		b, ok := cond.(*ssa.BinOp)
+		if !ok || fNum == nil || (b.Op != token.EQL && b.Op != token.NEQ) {
+			return false
+		}
+		x, y := b.X, b.Y
+		if isConstInt(x, 1) {
+			x, y = y, x
+		}
+		if !isConstInt(y, 1) {
+			return false
+		}
+		if fv, _ := loadedField(x); fv != fNum {
+			return false
+		}
+		return (b.Op == token.EQL) == onTrue
+	}
+	n := 0
+	eachInstr(f, func(i ssa.Instruction) {
+		r, ok := i.(*ssa.Return)
+		if !ok || len(r.Results) == 0 {
+			return
+		}
+		self := true
+		for _, og := range origins(r.Results[0]) {
+			if og != ssa.Value(recv) {
+				self = false
+			}
+		}
+		if self {
+			return
+		}
+		n++
+		okk := fNum != nil && mustPrecede(f, i, neverInstr, oneSource)
+		why := "the replacement iterator is handed out only when the iterator started with exactly one source"
+		if !okk {
+			why = "optimize hands out an iterator over one source (" + accessPath(r.Results[0]) + ") on a path that only established that one cursor is LIVE: the sources whose cursors were exhausted by the initial tombstone skip are forgotten, and a backward SeekTo resurrects keys they delete"
+		}
+		o.add(fn, "fast-path return", c.instrPos(i), okk, why)
+	})
+	if n == 0 {
+		o.trivial(fn, "no fast path", c.pos(f.Pos()), "optimize always returns the heap iterator")
+		return o.list
+	}
+	if fNum == nil {
+		return o.list
+	}
+	// numSources is written once, in startIterator, before heap.Init, from len(cursors)
+	si := c.Fn("(*segmentStack).startIterator")
+	fCur := c.Field("iterator", "cursors")
+	nst := 0
+	for _, g := range c.Funcs {
+		for _, a := range fieldAccesses(g, func(v *types.Var) bool { return v == fNum }) {
+			if a.Kind == "load" {
+				continue
+			}
+			nst++
+			okk := g == si && a.Kind == "store"
+			if okk {
+				fromLen := false
+				for _, og := range origins(a.Val) {
+					if call, isC := og.(*ssa.Call); isC {
+						if b, isB := call.Call.Value.(*ssa.Builtin); isB && b.Name() == "len" && len(call.Call.Args) == 1 {
+							if fv, _ := loadedField(call.Call.Args[0]); fv == fCur {
+								fromLen = true
+							}
+						}
+					}
+				}
+				beforeHeap := true
+				eachInstr(g, func(j ssa.Instruction) {
+					if call, isC := j.(*ssa.Call); isC && (isStaticCall(call, "container/heap", "Init") || isStaticCall(call, "container/heap", "Pop") || isStaticCall(call, "container/heap", "Fix")) {
+						if _, reach := reachableFrom(j, func(q ssa.Instruction) bool { return q == a.Instr }, nil, nil); reach {
+							beforeHeap = false
+						}
+					}
+				})
+				okk = fromLen && beforeHeap
+			}
+			why := "counted once, from len(cursors), before any cursor can be exhausted"
+			if !okk {
+				why = "numSources is written somewhere other than once in startIterator from len(cursors) before the heap is used: it no longer says how many sources have entries in the range"
+			}
+			o.add(c.fname(g), "write iterator.numSources", c.instrPos(a.Instr), okk, why)
+		}
+	}
+	if nst == 0 {
+		o.add(c.fname(si), "write iterator.numSources", c.pos(si.Pos()), false, "numSources is never set")
+	}
+	return o.list
+}
+
+func init() {
+	register(&Rule{
+		ID: "ITER-9",
+		Doc: "A source is left out only when it has no entry: in segmentStack.startIterator, after `op, k, v := sc.Current()`, the next source is reached without the cursor having been appended " +
+			"to iter.cursors only through the `op == 0` edge (the cursor's 'no entry' answer). A test on lengths (`len(k) == 0 && len(v) == 0`) drops a whole segment whose smallest entry is " +
+			"the empty key with an empty value - Set(\"\",\"\") or Del(\"\") - from iteration and from the merger, while Get still finds it.",
+		Props: []string{"C10", "C09", "C19"},
+		Floor: 1,
+		Run:   ruleIter9,
+	})
+}
+
+func ruleIter9(c *Ctx) []*Ob {
+	o := newObs(c, "ITER-9")
+	f := c.Fn("(*segmentStack).startIterator")
+	fn := c.fname(f)
+	fCur := c.Field("iterator", "cursors")
+	n := 0
+	eachInstr(f, func(i ssa.Instruction) {
+		k, ok := i.(*ssa.Call)
+		if !ok || !k.Call.IsInvoke() || k.Call.Method.Name() != "Current" || typeName(k.Call.Value.Type()) != "SegmentCursor" {
+			return
+		}
+		n++
+		var op ssa.Value
+		if refs := k.Referrers(); refs != nil {
+			for _, r := range *refs {
+				if e, isE := r.(*ssa.Extract); isE && e.Index == 0 {
+					op = e
+				}
+			}
+		}
+		bad := ""
+		walk(after(k), walkOpts{noInline: true,
+			visit: func(j ssa.Instruction, t *tracker) bool {
+				if bad != "" {
+					return true
+				}
+				if st, isSt := j.(*ssa.Store); isSt {
+					if fv, _ := asFieldAddr(st.Addr); fv == fCur {
+						return true // appended
+					}
+				}
+				if j == ssa.Instruction(k) {
+					bad = "the next source is reached"
+					return true
+				}
+				if _, isR := j.(*ssa.Return); isR {
+					return true
+				}
+				// leaving the loop over the segments without having appended: the heap is built without this source
+				if call, isC := j.(*ssa.Call); isC && isStaticCall(call, "container/heap", "Init") {
+					bad = "heap.Init is reached"
+					return true
+				}
+				return false
+			},
+			edge: func(from, to *ssa.BasicBlock, label string, cond ssa.Value, onTrue bool, _ *tracker) bool {
+				if bad != "" {
+					return true
+				}
+				b, isB := cond.(*ssa.BinOp)
+				if !isB || op == nil || (b.Op != token.EQL && b.Op != token.NEQ) {
+					return false
+				}
+				x, y := b.X, b.Y
+				if isZeroConst(x) {
+					x, y = y, x
+				}
+				return isZeroConst(y) && sameValue(x, op) && (b.Op == token.EQL) == onTrue
+			},
+		})
+		why := "a source is skipped only behind op == 0"
+		if bad != "" {
+			why = bad + " without this cursor having been appended and without the cursor having answered op == 0: a source whose first entry has an empty key and an empty value (or whatever else the test looks at) is dropped from the iteration although it has entries"
+		}
+		o.add(fn, "skip of a source after sc.Current()", c.instrPos(k), bad == "", why)
+	})
+	if n == 0 {
+		o.add(fn, "sc.Current()", c.pos(f.Pos()), false, "anchor lost: startIterator no longer asks the segment cursors for their first entry")
+	}
+	return o.list
+}
